@@ -634,6 +634,22 @@ def sc_valid(name, exprs, seed):
 
         out = H.run(main)
         leaks = [e for e in H.log if e[2] != e[3]]
+        # every content evaluation result handed to the setter is examined with its OWN data: per expression and looked-up key, the results whose
+        # data the evaluator was given are exactly the results that were set (a result nobody looked at, or one looked at twice, is somebody else's data)
+        if out[0] == "ok":
+            for xi in range(len(exprs)):
+                if out[1][xi][0] is not True:  # a failing evaluation ends the gather: the remaining ones need not have run
+                    continue
+                per_key = {}
+                for kind, k, t0, _t1 in H.log:
+                    if kind == "rc" and t0 is not None and t0[0] == xi:
+                        per_key.setdefault(k, Counter())[t0[1]] += 1
+                for k, cnt in sorted(per_key.items()):
+                    never = [ci for ci in range(counters[xi]) if cnt[ci] == 0]
+                    if never:
+                        leaks.append(("never-examined", f"expression {xi} key {k}", "content evaluation results set", counters[xi], "never seen by the evaluator", never[:8],
+                                      "seen more than once", sorted(ci for ci, n in cnt.items() if n > 1)[:8]))
+                        break
         if out[0] == "ok" and [r[0] for r in out[1]] != cache["alone"]:
             leaks.append(("not-own", "verdicts alone", cache["alone"], "concurrently", [r[0] for r in out[1]]))
         # model case: per expression the cers (as rc dicts, in the order the tasks were created), the yields, the
